@@ -294,6 +294,38 @@ pub fn gen_burst(r: &mut Rng, others: &[&str], pos: usize) -> String {
     format!("sim C14 {}", cmds.join(" ; "))
 }
 
+/// A client that has stopped reading: its search channel (capacity 10) is full - ten SearchStarted
+/// of a browse left unread for ten minutes, or nine and a room of one - when the daemon shuts down.
+/// SearchStopped must still be the last thing the channel delivers.  (`hold`: see simop.rs - when the
+/// daemon blocks in its send the harness reads after all, as a slow client would.)
+pub fn gen_full_channel(r: &mut Rng) -> String {
+    // (the monitor of `sim C14` histories judges daemon 1: daemon 0 is a bystander on no link)
+    let mut cmds: Vec<String> = vec![
+        format!("daemon {}", ifaces_of(0, false)),
+        format!("daemon {}", ifaces_of(1, false)),
+        "ipint 0 100000".to_string(),
+        "ipint 1 100000".to_string(),
+    ];
+    let t0 = 1_000_000u64;
+    cmds.push(format!("run {}", t0));
+    let host = r.chance(1, 3);
+    if host {
+        cmds.push(format!("resolve 1 1 {} none", hx("unread.local.")));
+    } else {
+        cmds.push(format!("browse 1 1 {}", hx(TYPES[0])));
+    }
+    cmds.push("hold 1 1".to_string());
+    // re-runs at +1, 3, 7, ... 511 s: the tenth SearchStarted is queued at +511 s, the eleventh would
+    // come at +1023 s
+    let until = *r.pick(&[520_000u64, 600_000, 300_000, 1_000_000]);
+    cmds.push(format!("run {}", t0 + until));
+    cmds.push("shutdown 1 2".to_string());
+    cmds.push(format!("run {}", t0 + until + 100));
+    cmds.push("release 1 1".to_string());
+    cmds.push(format!("run {}", t0 + until + 1000));
+    format!("sim C14 {}", cmds.join(" ; "))
+}
+
 pub fn generate(r: &mut Rng, tier: &str, emit: &mut dyn FnMut(String)) {
     let thorough = tier == "thorough";
     // every position of the shutdown among up to N other queued commands
@@ -308,6 +340,9 @@ pub fn generate(r: &mut Rng, tier: &str, emit: &mut dyn FnMut(String)) {
             }
             emit(gen_burst(r, &others, pos));
         }
+    }
+    for _ in 0..(if thorough { 60 } else { 8 }) {
+        emit(gen_full_channel(r));
     }
     let n_stress = if thorough { 400 } else { 40 };
     for i in 0..n_stress {
